@@ -198,6 +198,34 @@ def run(ctx, canary=False):
     for _ in range(nrand):
         n = rng.choice([5, 6, 6, 7, 8])
         structs.append((n, rand_cliques(rng, n, rng.randint(1, n + 1), 3 if n >= 7 else 4)))
+    # chordless cycles, grids and wheels: the structures on which a wrong triangulation first shows (fill-in of fill-in)
+    hard = {"cycle5": (5, [(0, 1), (1, 2), (2, 3), (3, 4), (4, 0)]), "cycle6": (6, [(0, 1), (1, 2), (2, 3), (3, 4), (4, 5), (5, 0)]),
+            "grid2x3": (6, [(0, 1), (1, 2), (3, 4), (4, 5), (0, 3), (1, 4), (2, 5)]),
+            "cycle7": (7, [(i, (i + 1) % 7) for i in range(7)]), "prism": (6, [(0, 1), (1, 2), (2, 0), (3, 4), (4, 5), (5, 3), (0, 3), (1, 4), (2, 5)])}
+    hard_orders = []
+    for name, (n, edges) in hard.items():
+        V = list(LETTERS[:n])
+        cl = [(V[a], V[b]) for a, b in edges]
+        perms = [list(V)] + [rng.sample(V, n) for _ in range(60 if thorough else 12)]
+        for order in perms:
+            hard_orders.append((n, cl, order))
+        structs.append((n, cl))
+    for n, cl, order in hard_orders:
+        V = list(LETTERS[:n])
+        sizes = {a: 2 for a in V}
+        dom = Domain(V, [2] * n)
+        info = {"domain": V, "sizes": sizes, "cliques": cl, "order": order}
+        try:
+            jt = JunctionTree(dom, cl, list(order))
+            evs = jt_events(jt)
+        except Exception as ex:
+            ctx.violation("JunctionTree raised %r" % ex, info, {"kind": "crash"})
+            continue
+        ctx.case((tuple(V), tuple(cl), tuple(order)), nontrivial=True)
+        bad = jt_valid(jt, V, cl)
+        if bad:
+            ctx.violation("not a valid junction tree: " + "; ".join(bad[:3]), info, {"kind": "structure"})
+        traces.setdefault(n, []).append({"sz": sizes, "cliques": [list(c) for c in cl], "mode": "any", "events": evs, "info": info})
     if thorough:  # all graphs on 6 attributes up to isomorphism, through the code's greedy order
         for g in graphs6():
             structs.append((6, [tuple(e) for e in g] or []))
